@@ -636,6 +636,26 @@ func run(r *mon.Run) {
 			runCase(r, id, c, "content-type", 1)
 		}
 	}
+	// D0. directive names that contain, or are contained in, the text of another directive: a directive is a whole
+	// comma-separated member, wherever else its letters occur in the value
+	for li, cc := range []string{"max-age=300, x-private-mode, private", `no-cache="private", private`, "x-no-store-hint=1, max-age=300, no-store", "x-max-age=1, max-age=300",
+		"non-public-ext, public", "x-private-mode, max-age=300", "private-ish=1", "my-no-store, public", "no-storex", "no-store-and-forward, private-network=1, s-maxage=1",
+		"PRIVATE", "max-age=300,private", `private="x-secret"`, "public, unprivate, restore=no-store", "x=private, y=no-store, max-age=1", "s-maxage=1, x-s-maxage=0", "publication=1", "xpublic, publicx"} {
+		for _, st := range []int{200, 201} {
+			if !mine() {
+				continue
+			}
+			c := baseCase(version.Version1b3)
+			c.status = st
+			c.respHeaders["Cache-Control"] = []string{cc}
+			if li%3 == 2 && strings.Contains(cc, ", ") {
+				parts := strings.SplitN(cc, ", ", 2)
+				c.respHeaders["Cache-Control"] = []string{parts[0], parts[1]}
+			}
+			c.desc = fmt.Sprintf("status=%d Cache-Control look-alikes %q", st, cc)
+			runCase(r, id, c, "cacheability-lookalike", 3)
+		}
+	}
 	// D. b3 cacheability: all subsets x Expires x status, single value and split across lines
 	dirs := []string{"no-store", "private", "public", "max-age=1", "s-maxage=1", "no-cache"}
 	statuses := []int{200, 203, 204, 206, 300, 301, 404, 405, 410, 414, 501, 201, 202, 302, 303, 307, 400, 403, 500, 503, 150, 250, 350, 460, 550}
